@@ -45,6 +45,10 @@ type Case struct {
 	Name  string `json:"name"`
 	Depth int    `json:"depth"`
 	Op    string `json:"op"`
+	// Symlinked (plain names, uninstall / install): <root>/<name> exists beforehand as a symbolic
+	// link to a directory elsewhere; deleting or replacing "the directory <root>/<name>" then means
+	// the link, never what it points to
+	Symlinked bool `json:"symlinked,omitempty"`
 }
 
 // single reports whether name is a single path component (the statement's criterion).
@@ -171,6 +175,17 @@ func (w *world) plantOne(name string) {
 	}
 }
 
+// plantLink makes <root>/<name> a symbolic link to a populated directory outside the plugin root.
+func (w *world) plantLink(name string) {
+	target := filepath.Join(w.base, "linked-target")
+	os.MkdirAll(filepath.Join(target, "sub"), 0o755)
+	os.WriteFile(filepath.Join(target, "notation-"+name), script(w.marker, name), 0o755)
+	os.WriteFile(filepath.Join(target, "data.txt"), []byte("somebody else's data"), 0o644)
+	os.WriteFile(filepath.Join(target, "sub", "more.txt"), []byte("more"), 0o644)
+	os.RemoveAll(filepath.Join(w.root, name))
+	os.Symlink(target, filepath.Join(w.root, name))
+}
+
 func (w *world) executed() string {
 	b, _ := os.ReadFile(w.marker)
 	return string(b)
@@ -254,6 +269,9 @@ func check(c Case) (skip string, key string, msg string) {
 		}
 	case "uninstall":
 		w.plant(c.Name)
+		if c.Symlinked && sure {
+			w.plantLink(c.Name)
+		}
 		before = snap()
 		err := mgr.Uninstall(ctx, c.Name)
 		after := snap()
@@ -295,6 +313,8 @@ func check(c Case) (skip string, key string, msg string) {
 		}
 		if !isSingle || !sure {
 			w.plant(c.Name) // decoys where an unvalidated clean-up / copy would act
+		} else if c.Symlinked {
+			w.plantLink(c.Name)
 		}
 		before = snap()
 		path := source
@@ -427,8 +447,14 @@ func TestC16_Names(t *testing.T) {
 		} else if !strings.ContainsAny(c.Name, "/\x00") && len(c.Name) <= 240 && rapid.Bool().Draw(rt, "preferInstall") {
 			c.Op = rp.Pick(rt, "installOp", "install-file", "install-dir")
 		}
+		if plainForSure(c.Name) && (c.Op == "uninstall" || strings.HasPrefix(c.Op, "install")) {
+			c.Symlinked = rapid.IntRange(0, 2).Draw(rt, "symlinked") == 0
+		}
 		skip, key, msg := check(c)
 		cl := []string{"op=" + c.Op, "namekind=" + kind, fmt.Sprintf("depth=%d", c.Depth)}
+		if c.Symlinked {
+			cl = append(cl, "plugin-directory-is-symlink")
+		}
 		if single(c.Name) {
 			cl = append(cl, "name=single-component")
 			if plainForSure(c.Name) {
@@ -440,7 +466,7 @@ func TestC16_Names(t *testing.T) {
 		if skip != "" {
 			cl = []string{"skipped=" + skip, "namekind=" + kind}
 		}
-		rec.Case(cl, skip == "" && !plainForSure(c.Name), stats.Fingerprint(c.Name, c.Depth, c.Op), func() any { return c })
+		rec.Case(cl, skip == "" && !plainForSure(c.Name), stats.Fingerprint(c.Name, c.Depth, c.Op, c.Symlinked), func() any { return c })
 		if key == "harness" {
 			rt.Fatalf("harness: %s", msg)
 		}
